@@ -268,7 +268,7 @@ CHECKS = {
                 "an abort is a refusal) must fail or return exactly the pre-damage collection; the property's exclusion is applied by effect "
                 "(only a suffix of the NEWEST listed segment lost, judged with an independent reference replay). Leg server-start-up: the "
                 "directory is produced by the REAL kyrodb_server (gRPC history with CreateSnapshot, forced drains and graceful restarts, clean "
-                "SIGTERM shutdown); every deletion plus a seeded sample (quick 10, thorough 60 per directory) of the same fault enumeration is "
+                "SIGTERM shutdown); every deletion plus a seeded sample (quick 10, thorough 40 per directory) of the same fault enumeration is "
                 "applied to a copy and the real server is started on it: it must refuse to start or serve exactly the pre-damage census. "
                 "distinct_nontrivial = distinct (case, fault) pairs",
         "legs": [{"name": "single-faults", "argv": ["c13"], "shards": 16},
